@@ -28,6 +28,7 @@ Variable E : env.
 Hypothesis savepoint_pushes : forall n t, sq_save E n t = ref_save n t.
 Hypothesis rollback_to_exact : forall n t, sq_rbto E n t = ref_rbto n t.
 Variable C : cfg.
+Hypothesis savepoints : c_nosp C = false.
 Variable fault : nat -> bool.
 Let nest := negb (c_nonest C).
 Notation Inv := (Inv C).
@@ -104,7 +105,7 @@ Proof.
          the enclosing handle is untouched *)
       inversion H; subst r o h1 s1. clear H. split; [reflexivity|].
       right. exists e1. split; [reflexivity|]. split; [reflexivity|].
-      destruct (h_sp_cases E savepoint_pushes rollback_to_exact C fault _ _ _ _ _ _ _ Es Htx' Hdr)
+      destruct (h_sp_cases E savepoint_pushes rollback_to_exact C savepoints fault _ _ _ _ _ _ _ Es Htx' Hdr)
         as [[e0 [Eh [Er [E1 Es1]]]] | [Eh [K | [K | [K | K]]]]]; cbv zeta in *.
       * subst h s1'. unfold C04_Proofs2.Inv. cbn [next_gen s_tx s_gen s_db s_txlog s_ops s_fl].
         repeat (split; [first [assumption | reflexivity | lia | apply new_names_refl | apply flags_le_refl]|]).
@@ -147,7 +148,7 @@ Proof.
       assert (Hrb2 : x_rb (s_fl s2) = false) by (destruct F2f as [F _]; eapply le_false; eassumption).
       assert (Hdr2 : x_drop (s_fl s2) = false) by (destruct F2f as [_ F]; eapply le_false; eassumption).
       assert (Hdr1 : x_drop (s_fl s1') = false) by (destruct F12 as [_ F]; eapply le_false; eassumption).
-      destruct (h_sp_cases E savepoint_pushes rollback_to_exact C fault _ _ _ _ _ _ _ Es Htx' Hdr1)
+      destruct (h_sp_cases E savepoint_pushes rollback_to_exact C savepoints fault _ _ _ _ _ _ _ Es Htx' Hdr1)
         as [[e0 [Eh [Er [E1 Es1]]]] | [Eh [K | [K | [K | K]]]]]; cbv zeta in *;
         try (destruct K as [_ [K _]]; discriminate); try discriminate.
       { destruct K as [_ [_ [K _]]]; discriminate. }
@@ -193,7 +194,7 @@ Proof.
         { intros [nm t0] Hx. destruct (A5 nm t0 Hx) as [[]|[[k [Ek Lk]]|[n Eu]]]; subst; cbn.
           - apply Nat.eqb_neq. lia.
           - reflexivity. }
-        destruct (h_sp_cases E savepoint_pushes rollback_to_exact C fault _ _ _ _ _ _ _ Er A1 Hdr)
+        destruct (h_sp_cases E savepoint_pushes rollback_to_exact C savepoints fault _ _ _ _ _ _ _ Er A1 Hdr)
           as [[e0 [Eh [_ _]]] | [_ [K | [K | [K | K]]]]]; cbv zeta in *.
         -- discriminate.
         -- destruct K as [K _]. rewrite K in Ef2; discriminate.
@@ -232,6 +233,7 @@ Variable E : env.
 Hypothesis savepoint_pushes : forall n t, sq_save E n t = ref_save n t.
 Hypothesis rollback_to_exact : forall n t, sq_rbto E n t = ref_rbto n t.
 Variable C : cfg.
+Hypothesis savepoints : c_nosp C = false.
 Variable fault : nat -> bool.
 Notation Inv := (Inv C).
 
@@ -306,7 +308,7 @@ Proof.
     assert (Hstep : x_rb (s_fl s1) = false -> x_drop (s_fl s1) = false ->
               h1 = h /\ exists t1 local1, Inv base true h s t local [o] h s1 t1 local1 /\ Sub avail (unames local1)).
     { intros R D.
-      destruct (nested_step E savepoint_pushes rollback_to_exact C fault _ HBS HMB _ _ _ _ _ _ _ _ _ En Htx Hg R D)
+      destruct (nested_step E savepoint_pushes rollback_to_exact C savepoints fault _ HBS HMB _ _ _ _ _ _ _ _ _ En Htx Hg R D)
         as [Eh [[t1 [local1 [l0 [Eo [St HSp]]]]] | [e' [Er [Eo St]]]]].
       - split; [exact Eh|]. exists t1, local1. split; [exact St | apply HSp; exact HS].
       - split; [exact Eh|]. exists t, local. split; [exact St | exact HS]. }
@@ -336,13 +338,13 @@ Proof.
     destruct (h_sp E C fault true (NUser n) h s) as [h1 s1] eqn:Es.
     destruct h1 as [e|].
     + inversion H; subst r l h' s'. clear H.
-      destruct (save_step E savepoint_pushes rollback_to_exact C fault _ _ _ _ _ _ _ _ Es Htx Hg Hdr)
+      destruct (save_step E savepoint_pushes rollback_to_exact C savepoints fault _ _ _ _ _ _ _ _ Es Htx Hg Hdr)
         as [[K _] | [e' [Ee St]]]; [discriminate|].
       inversion Ee; subst e'. exists t, local. exact St.
     + destruct (run_body E C fault k None s1) as [[[r1 l1] h2] s2] eqn:Ek.
       inversion H; subst r l h' s'. clear H.
       pose proof (run_body_flags E C fault k _ _ _ _ _ _ Ek) as Fk.
-      destruct (save_step E savepoint_pushes rollback_to_exact C fault _ _ _ _ _ _ _ _ Es Htx Hg (drop_back _ _ Fk Hdr))
+      destruct (save_step E savepoint_pushes rollback_to_exact C savepoints fault _ _ _ _ _ _ _ _ Es Htx Hg (drop_back _ _ Fk Hdr))
         as [[_ St] | [e' [Ee _]]]; [|discriminate].
       pose proof St as (A1 & A2 & A3 & _).
       assert (HS1 : Sub (n :: avail) (unames ((NUser n, t) :: local))).
@@ -354,13 +356,13 @@ Proof.
     destruct (h_sp E C fault false (NUser n) h s) as [h1 s1] eqn:Es.
     destruct h1 as [e|].
     + inversion H; subst r l h' s'. clear H.
-      destruct (rbto_step E savepoint_pushes rollback_to_exact C fault _ _ _ _ _ _ _ _ _ Es Htx Hg HS Hmem Hdr)
+      destruct (rbto_step E savepoint_pushes rollback_to_exact C savepoints fault _ _ _ _ _ _ _ _ _ Es Htx Hg HS Hmem Hdr)
         as [[K _] | [e' [Ee St]]]; [discriminate|].
       inversion Ee; subst e'. exists t, local. exact St.
     + destruct (run_body E C fault k None s1) as [[[r1 l1] h2] s2] eqn:Ek.
       inversion H; subst r l h' s'. clear H.
       pose proof (run_body_flags E C fault k _ _ _ _ _ _ Ek) as Fk.
-      destruct (rbto_step E savepoint_pushes rollback_to_exact C fault _ _ _ _ _ _ _ _ _ Es Htx Hg HS Hmem (drop_back _ _ Fk Hdr))
+      destruct (rbto_step E savepoint_pushes rollback_to_exact C savepoints fault _ _ _ _ _ _ _ _ _ Es Htx Hg HS Hmem (drop_back _ _ Fk Hdr))
         as [[_ [snap [local2 [St HS2]]]] | [e' [Ee _]]]; [|discriminate].
       pose proof St as (A1 & A2 & A3 & _).
       destruct (IHk (cutz n avail) _ _ _ _ _ _ _ _ _ Ek A1 HS2 Hsck A3 Hrb Hdr) as [t' [local' HI]].
